@@ -133,6 +133,33 @@ def oracle(ctx):
         if missing:
             res.oracle_failures.append(dict(op=op, input=text, impl_output=str(argv)[:600],
                                             oracle_expectation=f'{key} is read as {"a plain list (backslashes literal)" if kind == "lookup_all_strv" else "argument words (escapes decoded)"}: the words {want} reach the command; missing {missing}'))
+    # an explicitly quoted empty word is a word: for the keys whose words become arguments one by one it arrives as an empty argument
+    # (between its neighbours), for every key it must not take a neighbour with it
+    ecases = []
+    for (key, kind), fns in sorted(kinds.items()):
+        for fn in sorted(fns):
+            ty = FN_TY.get(fn)
+            if ty is None or key not in ctx.tables['supported'][G.SUP[ty]] or key in ('Mount', 'RemapUid', 'RemapGid') or kind != 'lookup_all_args':
+                continue
+            ecases.append((ty, key, '[' + G.SEC[ty] + ']\n' + ''.join(b + '\n' for b in G.BASE[ty]) + f'{key}=e-first "" e-mid \'\' e-last\n'))
+    eops = [f'convert\t0\t0\t{hx("/q/e." + ty)}\t{hx(text)}' for ty, key, text in ecases]
+    for (ty, key, text), op, a in zip(ecases, eops, ctx.impl(eops)):
+        r = canon.parse_convert(a)[0]
+        if r[0] != 'svc':
+            continue
+        res.oracle_evals += 1
+        argv = []
+        for e in [v for k, v in r[2].get('Service', []) if k.startswith('ExecStart')]:
+            b = ctx.model(['spec_split_exec\t' + hx(e)])[0]
+            argv += [unhx(t) for t in b[4:-1].split(' ') if t] if b.startswith('ok [') else []
+        pos = [i for i, x in enumerate(argv) if any(w in x for w in ('e-first', 'e-mid', 'e-last'))]   # (a key may decorate its words: paths, name=value)
+        fail = None
+        if len(pos) != 3 or not all(w in argv[i] for w, i in zip(('e-first', 'e-mid', 'e-last'), pos)):
+            fail = f'the three non-empty words do not all arrive, in order: {argv}'
+        elif key in ('PodmanArgs', 'GlobalArgs', 'Exec') and argv[pos[0]:pos[2] + 1] != ['e-first', '', 'e-mid', '', 'e-last']:
+            fail = f'the words of {key} become arguments one by one, the empty ones included: {argv[pos[0]:pos[2] + 1]}'
+        if fail:
+            res.oracle_failures.append(dict(op=op, input=text, impl_output=str(argv)[:500], oracle_expectation=fail))
     # … and however the assignment is spelled in the file: the words on continued, indented lines — words that look like section
     # headers, comments or assignments when they start a physical line (indented, so they do not: KF-C03-1 is column 0 only)
     ML_WORDS = ['alpha', '[1,2,3]', 'be\\x41ta', '"q r"', '[z', '#nocomment', ';semi', 'k=v', '[ f', 'x1', ']', 'omega']   # (no word starts with '-': AddDevice reads that as "optional")
